@@ -41,7 +41,7 @@ def elem_terms(p):
 def run(M, rep, tier, only=None):
     ctx = Ctx(M, coarse=False)
     ctx.cfg.compose = False
-    R1 = rep.rule("C06.R1", "read and write side of a view agree on what 'no index' means (identity with None)", floor=2,
+    R1 = rep.rule("C06.R1", "read and write side of a view (and of the hdf5 layer) agree on what 'no index' means (identity with None)", floor=4,
                   technique="decision atoms on the index parameter in the two sibling methods")
     R2 = rep.rule("C06.R2", "view index transformation = NumPy selection shifted into the window (ints, slices, ellipsis)", floor=300,
                   technique="decision-table extraction; evaluation of the extracted guards on representatives; comparison with "
@@ -86,6 +86,31 @@ def run(M, rep, tier, only=None):
                     bad = (p, "reading an invalid view does not give an empty array")
         rep.check(R5, key, bad is None and ninv > 0, bad[1] if bad else "validity is not consulted", site=f.file + ":%d" % f.node.lineno,
                   detail=describe_path(bad[0]) if bad else None)
+
+    # the hdf5 layer underneath: "no region given" is decided by identity too (an index of 0 is a region)
+    rcfg0 = Config(M, mode="raw")
+    rcfg0.compose = False
+    dsc = M.classes.get("H5DataSet")
+    for nm in ("read_data", "write_data"):
+        f = dsc.methods.get(nm) if dsc else None
+        key = "H5DataSet." + nm
+        if f is None:
+            rep.bad(R1, key, "required mechanism not found")
+            continue
+        atoms = set()
+        whole = False
+        for p in explore(rcfg0, f, "H5DataSet", None, 4000):
+            for a, v in p.decisions:
+                if a[0] in ("isnone", "truthy") and a[1] == ("param", "slc"):
+                    atoms.add(a[0])
+            for e in p.events:
+                if e.kind == "raw" and e.op.split(".")[-1] in ("__getitem__", "__setitem__") and e.key is not None and \
+                        e.key.t in (("slice", ("const", None), ("const", None), ("const", None)),
+                                    ("call", "slice", (("const", None), ("const", None), ("const", None))), ("builtin", "Ellipsis")):
+                    whole = True
+        rep.check(R1, key, atoms == {"isnone"} and whole, "%s decides whether a region was given by %s: the index 0 addresses the whole "
+                  "data set" % (key, "truthiness" if "truthy" in atoms else "something else than `slc is None`"),
+                  site=f.file + ":%d" % f.node.lineno, what="tests `slc is None`, else passes the region on")
 
     # ---------------------------------------------------------------- R2a element transformation
     f = ctx.member("DataView", "_transform_coordinates")
